@@ -15,10 +15,11 @@ import GocoinV.Proofs.C08_MultGen
 import GocoinV.Proofs.C08_Scalar
 import GocoinV.Proofs.C08_MultGenFull
 import GocoinV.Proofs.C08_Ecmult
+import GocoinV.Proofs.C08_EcmultFull
 import GocoinV.Proofs.C08_Lift
 
 namespace GocoinV.Props.C08
-open GocoinV.C08 GocoinV.Gen.Field5x52 GocoinV.Gen
+open GocoinV.C08 GocoinV.Gen.Field5x52 GocoinV.Gen GocoinV.Proofs.C03
 
 /-- `Field.SetAdd`: for ALL limb vectors within magnitudes m1, m2 (m1+m2 ≤ 32) no limb wraps around,
     the value of the result is exactly the sum of the values, and its magnitude is m1+m2. -/
@@ -231,6 +232,31 @@ theorem wnaf_sound_general (a : Int) (w : Nat) (hw : 2 ≤ w) (L : Nat) (hL : L 
 theorem ecmult_no_panic (a : XYZ) (na : Int) (ng : Nat) (hng : ng < 2 ^ 256) : (ecmult a na ng).isSome = true :=
   ecmult_isSome a na ng hng
 
+/-- `XYZ.ECmult(a, na, ng)` (the r = na·A + ng·G of signature verification) for EVERY Jacobian input within the
+    contract that lies on the curve (`OnC`; ∞ included), EVERY integer na and every ng < 2^256: no panic, the
+    result is within the contract and stands for  na1·A + na_lam·A' + ng·G  in the abelian group of curve points,
+    where (na1, na_lam) = split_exp(na) and A' is the curve point `mul_lambda` makes of A (x ↦ β·x).
+    Followed through: GLV split, four wNAF expansions (`wnaf_sound`), `precomp` tables of odd multiples of A and A',
+    the tables pre_g / pre_g_128 (every entry), and the interleaved double-and-add loop (`Rp r R` = "r is within
+    the contract and stands for R"). -/
+theorem ecmult_sum_correct (a : XYZ) (ha : a.ok) (hA : OnC a.toPoint) (na : Int) (ng : Nat) (hng : ng < 2 ^ 256) :
+    ∃ (r : XYZ) (A A' : CurvePt), A.1 = a.toPoint ∧ Rp (XYZ.mulLambda a) A' ∧ ecmult a na ng = some r ∧
+      Rp r ((splitExp na).1 • A + (splitExp na).2 • A' + ng • Gc) := ecmult_sum a ha hA na ng hng
+
+/-- `ECmult` = na·A + ng·G, PARTIAL: under the two consequences of #E(F_p) = n for the point A, which are stated as
+    explicit hypotheses and NOT proved: n·A = 0 (Lagrange) and mul_lambda(A) = λ·A (the endomorphism
+    (x,y) ↦ (β·x, y) acts on the cyclic group of order n as multiplication by λ). For A = k·G both are decidable facts
+    about G; here they are assumptions. Scalars 0, n, above n and negative na are covered (na is any integer). -/
+theorem ecmult_correct_partial (a : XYZ) (ha : a.ok) (hA : OnC a.toPoint) (na : Int) (ng : Nat) (hng : ng < 2 ^ 256)
+    (hn : ((CurveConsts.order : Nat) : Int) • mkPt a.toPoint hA = 0)
+    (hl : ∀ A' : CurvePt, Rp (XYZ.mulLambda a) A' → A' = ((CurveConsts.lambda : Nat) : Int) • mkPt a.toPoint hA) :
+    ∃ r, ecmult a na ng = some r ∧ Rp r (na • mkPt a.toPoint hA + ng • Gc) :=
+  ecmult_mul a ha hA na ng hng hn hl
+
+example : ∃ r, ecmult { x := setInt 0, y := setInt 0, z := setInt 0, inf := true } 5 7 = some r :=
+  (ecmult_sum _ ⟨by decide, by decide, by decide, fun h => by simp at h⟩ (by rfl) 5 7 (by norm_num)).elim
+    fun r h => h.elim fun _ h => h.elim fun _ h => ⟨r, h.2.2.1⟩
+
 /-- `XY.SetXO` (decompression, x-only lifting, the core of ParsePubkey 02/03 and DecompressPoint): for EVERY x of
     magnitude ≤ 2 the result keeps x, y is fully normalised; if x³+7 is a square in F_p the point is on the curve,
     and (for y ≠ 0, which always holds on secp256k1) y has the requested parity. -/
@@ -259,10 +285,9 @@ theorem split_exp_bound (a : Int) :
   OPEN (covered by the differential run only — go/cmd/c08 compares the hand group model limb-for-limb with the
   Go code and evaluates the statements on the real code against math/big):
 
-  -- OPEN: ecmult_correct: (ecmult a na ng).toPoint = na·A + ng·G. Proved pieces: split_exp_sound/bound, wnaf_sound,
-  --   ecmult_no_panic, add/addXY/double/neg_correct, preG_spec/preG128_spec. Missing: the interleaved-wNAF loop
-  --   invariant, XYZ.precomp (odd multiples), and the endomorphism fact λ·(x,y) = (β·x, y), which needs every curve
-  --   point to be a multiple of G, i.e. the explicit hypothesis #E(F_p) = n.
+  -- OPEN: ecmult_correct without hypotheses on A: `ecmult_sum_correct` is proved unconditionally; turning
+  --   na1·A + na_lam·A' into na·A needs n·A = 0 and A' = λ·A (`ecmult_correct_partial` assumes them); both follow
+  --   from #E(F_p) = n, which is not proved (explicit hypothesis by design).
   -- OPEN: XY.SetXYZ / GetPublicKey (Field.InvVar = big.Int.ModInverse, modelled by Secp.invMod; byte-level glue
   --   beVal ∘ getB32 ∘ normalize not proved), mulLambda.
   -- NOT COVERED: field_10x26.go (not compiled on 64-bit platforms).
